@@ -9,7 +9,7 @@
    handle_timeout_loop whose head read succeeded IS read_counter followed by
    this term.  `ht O P m Q C` is the triple of Hoare.v.
    bad offp (c, r) = call c was answered by a failure that must be reported:
-   mkdir other than EEXIST, open of the source other than ENOENT/EACCES, the
+   mkdir other than EEXIST, open of the source other than ENOENT/ENOTDIR/EACCES, the
    exclusive create other than EEXIST, fstat, sendfile, open/ftruncate/write of
    the position file, unlink of the position file other than ENOENT.
    stopped path wc = wc with "cannot copy <path>" pushed on the error trace.
